@@ -119,7 +119,7 @@ def to_model(j, key=None):
 TEXT_POOL = ["Fedora", "Red Hat Enterprise Linux", "X \u00e9", "a b", " lead", "trail ", "a  b", "tab\there", "nb\u00a0sp", " ", "a-b", "a--b", "a.b", "a..b",
              "a:b", "a::b", "a/b", "a//b", "a@b", "a,b", "a,,b", "a;b", "a=b", "a = b", "#a", "a#b", "a%b", "a%%b", "%(x)s", "[a]", "]a[", '"a"', "'a'", "a\\b",
              "a\\\\b", "FEDORA", "fedora", "FeDoRa", "\u0663\uff17", "\U0001d518x", "n" * 300, "None", "null", "0", "False", "1.0"]
-INT_POOL = [1, -1, 2 ** 31, 2 ** 32 + 7, 2 ** 53 + 1, 2 ** 63 - 1, 10 ** 7, 10 ** 8, True, 12]
+INT_POOL = [1, -1, 2 ** 31, 2 ** 32 + 7, 2 ** 53 + 1, 2 ** 63 - 1, 10 ** 7, 10 ** 8, 3, 12]      # no bool: not a valid int since the F22/F43 repair (a corruption candidate via rules7.TYPE_POOL)
 REL_PATHS = ["a/b.iso", "a/b/", "a//b", "./a/b", "a/../b", "a/a/a", "..", ".", " a", "a b/c", "A/b", "a/B", "\u00e9/\u0663", "p" * 300, "a:b", "a=b", "a#b", "a%b", "[a]/b"]
 
 
@@ -144,7 +144,7 @@ def _compose(rng, k, T):
         date = "".join(chr(0x0660 + int(c)) for c in date)          # `\d` is Unicode-aware: Arabic-Indic digits are in the documented language
     if k % 11 == 7:
         date = "".join(chr(0xFF10 + int(c)) for c in date)
-    respin = [0, 1, 12, 10, 10 ** 7, 10 ** 8, True, 2 ** 63 - 1, -1][k % 9] if k % 2 else rng.choice([0, 1, 12])
+    respin = [0, 1, 12, 10, 10 ** 7, 10 ** 8, 2, 2 ** 63 - 1, -1][k % 9] if k % 2 else rng.choice([0, 1, 12])
     label = None
     if k % 2 == 0:
         # label and `final` are decoupled: both values of final with and without a label (A9)
@@ -212,7 +212,7 @@ def gen(rng, fmt, k):
                     mtime=rng.choice([0, 1, -1] + INT_POOL), size=INT_POOL[(k + j) % len(INT_POOL)],
                     volume_id=rng.choice([None, "vol %d" % j, " ", _text(rng, k, j)]), type=t, format=f,
                     arch=rng.choice([a, "src", "nosrc", "i386", arch_tab[(k + j) % len(arch_tab)], _text(rng, k, j + 1)]),       # decoupled from the cell key
-                    disc_number=num + 10 * j, disc_count=rng.choice([num, 1, 3, 0, -1, True, 2 ** 31]),                            # decoupled from each other
+                    disc_number=num + 10 * j, disc_count=rng.choice([num, 1, 3, 0, -1, 2, 2 ** 31]),                            # decoupled from each other
                     checksums=dict(rng.sample([("md5", "m%d" % j), ("sha1", "s%d" % j), ("sha256", "S%d" % j), ("SHA256", "x"), ("", "")], rng.randint(1, 3))),
                     implant_md5=rng.choice([None, "%032x" % (j * 7919), "0" * 32, "z" * 32]), bootable=rng.random() < 0.5,
                     subvariant=rng.choice(["", "KDE", "Server", _text(rng, k, j + 2)]),
@@ -242,7 +242,7 @@ def gen(rng, fmt, k):
         layered = (k % 3 == 1)
         plats = sorted(set(rng.sample(["xen", "efi", "Mixed", "mixed", "x86_64-xen", "a b"], rng.randint(0, 3))) | {arch})
         # numbers: boundaries, negative, fraction >= .5, beyond 2^53; the two NON-FINITE floats are floats too (finding F35), bounded in number
-        stamps = [1, 123456, -5, 2 ** 40, 1234.5, -0.5, 0.5, 2 ** 53 + 1, 2 ** 63 - 1, 1e300, True, -1]
+        stamps = [1, 123456, -5, 2 ** 40, 1234.5, -0.5, 0.5, 2 ** 53 + 1, 2 ** 63 - 1, 1e300, 2, -1]
         ts = stamps[k % len(stamps)]
         if k % 41 == 9:
             ts = {"$float": ["inf", "-inf", "nan"][(k // 41) % 3]}
@@ -282,7 +282,7 @@ def gen(rng, fmt, k):
             spec["stage2"]["instimage"] = rng.choice(["images/install.img", "/abs/is/not/checked", ""])
         if rng.random() < 0.5:
             spec["media"] = rng.choice([dict(discnum=rng.randint(1, 3), totaldiscs=3), dict(discnum=1, totaldiscs=1), dict(discnum=3, totaldiscs=1),
-                                        dict(discnum=10, totaldiscs=2 ** 31), dict(discnum=True, totaldiscs=True), dict(discnum=-1, totaldiscs=-1)])
+                                        dict(discnum=10, totaldiscs=2 ** 31), dict(discnum=1, totaldiscs=1), dict(discnum=-1, totaldiscs=-1)])
         for i in range(rng.randint(0, 3)):
             spec["checksums"][rng.choice(["images/boot%d.iso", "./x//y/../Z%d.img", "UP/low%d", "a b/%d", "up/LOW%d"]) % i] = \
                 [rng.choice(["sha256", "md5", "SHA256", "sha512", ""]), "%x" % rng.getrandbits(64)]
